@@ -18,7 +18,7 @@ RULE = ("polylines (paths, cycles, trees, stars, grids with exact ties, random g
         "non-trivial = a returned path of >= 3 edges on a mesh where the hop-shortest and the weight-shortest distance orders differ, or a set query "
         "with >= 2 targets; distinct = (mesh, start, targets, weight mode) hash")
 REQUIRED = {"path": 1500, "set": 300, "border": 40}
-CASE_TIMEOUT = {"quick": 60.0, "thorough": 600.0}
+CASE_TIMEOUT = {"quick": 30.0, "thorough": 600.0}
 ASSUMPTIONS = ["targets are reachable from the start (the statement quantifies over connected pairs)", "weights are non-negative and finite",
                "ties: only the total weight of a returned path is compared, not the vertex sequence"]
 
